@@ -35,7 +35,7 @@ Not decided (other technique families): absence of out-of-bounds accesses in gen
 termination / hangs, equivalence of assert-on and NDEBUG builds, decompressor internals (C09), STALE-L/F (run by C04).
 """
 from ..c03_util import (classify_edges, upper_bound, lower_bound, equals, truthy, reaches_unchecked, describe, roots,
-                        local_roots, starts_for, definitions, elem_of, sig, var_name, cmp_parts, strip_not)
+                        local_roots, starts_for, definitions, elem_of, sig, var_name, cmp_parts, strip_not, CursorFlow, UNCHECKED)
 from ..excflow import Esc, catch_alls, handler_entry_block, must_pass
 from ..errdisc import guards
 from ..flow import path_search
@@ -84,6 +84,13 @@ EXPAT = XMLP + '::ExpatXMLParser'
 BUILDER = 'osmium::builder::Builder'
 U16 = 0xffff
 U32 = 0xffffffff
+
+
+_SELFTEST = [False]      # positive examples live outside /repo: file filters are relaxed for them
+
+
+def _parser_file(fn):
+    return _SELFTEST[0] or '/io/detail/' in fn.file or fn.file.endswith('/osmium/opl.hpp')
 
 
 def _exit_t(e):
@@ -429,6 +436,8 @@ def g4_blobs(fb, R):
                 w = reaches_unchecked(fn, [consumer['id']], uses, pe)
                 R.check(w is None and bool(uses), rule, key, fn.loc(c['id']),
                         'BlobHeader size from the file is used without the test against max_blob_header_size: %s' % describe(fn, w))
+            elif consumer.get('k') == 'return':
+                R.bad(rule, key, fn.loc(c['id']), 'BlobHeader size from the file is returned without the test against max_blob_header_size')
             else:
                 R.broken('%s: size read from the input is consumed by an unrecognised construct (%s)' % (fn.q, consumer.get('cls')))
     if n_c == 0:
@@ -473,6 +482,276 @@ def g4_blobs(fb, R):
                 'blob size from the BlobHeader drives resize/append without the test against max_uncompressed_blob_size: %s' % describe(fn, w))
 
 
+
+# ------------------------------------------------------------------------------------------------ G5 o5m
+
+def _uses_of(fn, d, exclude_conds):
+    """node ids reading local d, except inside the given condition subtrees."""
+    skip = set()
+    for c in exclude_conds:
+        skip.update(fn.subtree(c))
+    return [n['id'] for n in fn.all_nodes() if n.get('k') == 'var' and n.get('d') == d and n['id'] not in skip]
+
+
+def _matching_conds(fn, classify):
+    from ..errdisc import effective_cond
+    out = []
+    for blk in fn.blocks.values():
+        if 'cond' not in blk or len(blk['succs']) != 2 or blk.get('termcls') == 'SwitchStmt':
+            continue
+        c = effective_cond(fn, blk)
+        if c is None:
+            continue
+        inner, _pol = strip_not(fn, c)
+        if classify(fn, inner) is not None:
+            out.append(c)
+    return out
+
+
+def _is_ptr_t(t):
+    t = (t or '').strip()
+    return t.endswith('*') or t.endswith('*const')
+
+
+def g5_o5m(fb, R):
+    fns = [f for f in fb.functions if f.cls in (O5M, RT) and f.has_cfg and not f.is_lambda]
+    if not fns:
+        R.broken('no O5mParser functions found')
+        return
+    # ---- (a) section ends derived from a length in the file
+    rule = 'G5-o5m-section-end-checked'
+    for fn in fns:
+        if fn.cls != O5M:
+            continue
+        ends = [p for p in fn.params if _is_ptr_t(p['tC']) and (p['tC'].endswith('*const') or not definitions(fn, p['d']))]
+        for n in list(fn.all_nodes()):
+            if n.get('k') != 'decl':
+                continue
+            for v in n['vars']:
+                if not _is_ptr_t(v['tC']) or not isinstance(v.get('init'), int):
+                    continue
+                i = fn.sn(v['init'])
+                if i is None or i.get('k') != 'binop' or i.get('op') != '+':
+                    continue
+                l, r = fn.sn(i['lhs']), fn.sn(i['rhs'])
+                if l is None or r is None:
+                    continue
+                ptr, num = (i['lhs'], i['rhs']) if _is_ptr_t(l.get('t')) else (i['rhs'], i['lhs'])
+                if fn.const_value(num) is not None:
+                    continue
+                # a pointer computed from pointer + variable length
+                subj = {('var', v['d'])}
+                pset = {('var', p['d']) for p in ends}
+                cl = upper_bound(_rooted_in(subj), lambda f, x, pset=pset: bool(local_roots(f, x)) and local_roots(f, x) <= pset and _is_ptr_t((f.sn(x) or {}).get('t')))
+                pe = classify_edges(fn, cl)
+                uses = _uses_of(fn, v['d'], _matching_conds(fn, cl))
+                w = reaches_unchecked(fn, [n['id']], uses, pe)
+                R.check(w is None and bool(uses), rule, '%s#derived-end:%s' % (fn.q, v['name']), fn.loc(n['id']),
+                        'section end computed from a length in the file is used without first being compared with the end of the dataset '
+                        '(derived > end -> throw): %s' % describe(fn, w))
+    # ---- (b) ReferenceTable::get
+    rule = 'G5-o5m-reference-table-bounds'
+    gets = fb.fns(RT + '::get')
+    adds = fb.fns(RT + '::add')
+    if not gets or not adds:
+        R.broken('ReferenceTable::get / add not found')
+    for fn in gets:
+        idx = [c for c in fn.all_nodes() if c.get('k') == 'call' and c.get('op') == '[]' and c.get('recv') is not None and fn.is_this_member(c['recv'])]
+        if len(idx) != 1 or not fn.params:
+            R.broken('ReferenceTable::get: expected one indexed access of the table member')
+            continue
+        tbl = fn.sn(idx[0]['recv'])['name']
+        pe = classify_edges(fn, truthy(lambda f, x: (f.sn(x) or {}).get('k') == 'call' and _method_name((f.sn(x) or {}).get('q', '')) == 'empty'
+                                       and _recv_field(f, f.sn(x)) == tbl, want_true=False))
+        w = reaches_unchecked(fn, ['entry'], [idx[0]['id']], pe)
+        R.check(w is None, rule, fn.q + '#table-allocated', fn.loc(idx[0]['id']),
+                'the table is indexed although it may still be empty (it is allocated lazily by add()): %s' % describe(fn, w))
+        subj = {('var', fn.params[0]['d'])}
+        nent = _table_entries(fn, idx[0])
+        pe = classify_edges(fn, upper_bound(_rooted_in(subj), lambda f, x: f.const_value(x) is not None and nent is not None and f.const_value(x) <= nent))
+        w = reaches_unchecked(fn, ['entry'], [idx[0]['id']], pe)
+        R.check(w is None, rule, fn.q + '#index-upper-bound', fn.loc(idx[0]['id']),
+                'string reference from the file is used without the test index > number_of_entries: %s' % describe(fn, w))
+        pe = classify_edges(fn, equals(_rooted_in(subj), lambda f, x: f.const_value(x) == 0, want_equal=False))
+        pe |= classify_edges(fn, lower_bound(_rooted_in(subj), lambda f, x: f.const_value(x) in (0, 1)))
+        w = reaches_unchecked(fn, ['entry'], [idx[0]['id']], pe)
+        R.check(w is None, rule, fn.q + '#index-not-zero', fn.loc(idx[0]['id']),
+                'string reference 0 is not rejected: %s' % describe(fn, w))
+    # ---- (c) ReferenceTable::add
+    for fn in adds:
+        copies = [c for c in fn.all_nodes() if c.get('k') == 'call' and c.get('q') in ('std::copy_n', 'std::copy', 'memcpy', 'std::memcpy', 'std::memmove', 'memmove')]
+        if len(copies) != 1:
+            R.broken('ReferenceTable::add: expected exactly one copy into the table')
+            continue
+        cp = copies[0]
+        args = cp.get('args', [])
+        cnt = None
+        for a in args:
+            if a is not None and not _is_ptr_t((fn.sn(a) or {}).get('t')):
+                cnt = a
+        dst = [x for a in args if a is not None for x in fn.subtree(a)
+               if fn.nodes[x].get('k') == 'call' and fn.nodes[x].get('op') == '[]' and fn.nodes[x].get('recv') is not None and fn.is_this_member(fn.nodes[x]['recv'])]
+        if cnt is None or len(dst) != 1:
+            R.broken('ReferenceTable::add: cannot identify count / destination of the copy')
+            continue
+        entry_size = _entry_size(fn, dst[0])
+        subj = {r for r in local_roots(fn, cnt) if r[0] == 'var'}
+        pe = classify_edges(fn, upper_bound(_rooted_in(subj), lambda f, x: f.const_value(x) is not None and entry_size is not None and f.const_value(x) <= entry_size))
+        w = reaches_unchecked(fn, ['entry'], [cp['id']], pe)
+        R.check(w is None and bool(subj), rule, fn.q + '#copy-size-bounded', fn.loc(cp['id']),
+                'a string from the file is copied into a table slot without the size test (size <= max_length <= entry_size=%s): %s' % (entry_size, describe(fn, w)))
+        tbl = fn.sn(fn.nodes[dst[0]]['recv'])['name']
+        resizes = [c for c in fn.all_nodes() if c.get('k') == 'call' and _method_name(c.get('q', '')) in ('resize', 'assign') and _recv_field(fn, c) == tbl]
+        pe = classify_edges(fn, truthy(lambda f, x: (f.sn(x) or {}).get('k') == 'call' and _method_name((f.sn(x) or {}).get('q', '')) == 'empty'
+                                       and _recv_field(f, f.sn(x)) == tbl, want_true=False))
+        w = reaches_unchecked(fn, ['entry'], [cp['id']], pe, barriers=[c['id'] for c in resizes])
+        R.check(w is None, rule, fn.q + '#table-allocated', fn.loc(cp['id']),
+                'the copy into the table can run while the table is still empty: %s' % describe(fn, w))
+        # slot arithmetic: resize(entry_size * entries); wrap test against the same number of entries
+        wraps = [fn.const_value(cmp_parts(fn, c)[2]) for c in _matching_conds(fn, lambda f, x: 'T' if cmp_parts(f, x) and cmp_parts(f, x)[0] == '=='
+                                                                              and any(f.nodes[y].get('k') == 'unop' and f.nodes[y].get('op') == '++' for y in f.subtree(cmp_parts(f, x)[1])) else None)]
+        sizes = [fn.const_value(c['args'][0]) for c in resizes if c.get('args')]
+        ok = bool(resizes) and bool(wraps) and entry_size is not None and all(s is not None and w_ is not None and s >= entry_size * w_ for s in sizes for w_ in wraps)
+        R.check(ok, rule, fn.q + '#slot-arithmetic', fn.site,
+                'table size %s, slot size %s and wrap-around count %s do not agree (table must hold wrap count * slot size bytes)' % (sizes, entry_size, wraps))
+    # ---- (d) dataset framing in decode_data / decode_header
+    rule = 'G5-o5m-bytes-available'
+    eba = O5M + '::ensure_bytes_available'
+
+    def eba_with(pred):
+        def is_e(f, x):
+            n = f.sn(x)
+            return n is not None and n.get('k') == 'call' and n.get('q') == eba and n.get('args') and pred(f, n['args'][0])
+        return truthy(is_e, want_true=True)
+    for fn in fb.fns(O5M + '::decode_data'):
+        # dataset length
+        lens = set()
+        for n in fn.all_nodes():
+            if n.get('k') == 'binop' and n.get('op') == '+' or n.get('k') == 'assign' and n.get('op') == '+=':
+                l, r = n['lhs'], n['rhs']
+                if _is_this_field(fn, l) and _is_ptr_t(fn.sn(l).get('t')):
+                    for rt in local_roots(fn, r):
+                        if rt[0] == 'var':
+                            lens.add(rt[1])
+        if not lens:
+            R.broken('decode_data: no `cursor + length` expression found')
+        for d in lens:
+            subj = {('var', d)}
+            cl = eba_with(_rooted_in(subj))
+            pe = classify_edges(fn, cl)
+            uses = _uses_of(fn, d, _matching_conds(fn, cl))
+            uses = [u for u in uses if not any(fn.nodes[x]['id'] == u for dd in definitions(fn, d) for x in fn.subtree(dd))]
+            w = reaches_unchecked(fn, starts_for(fn, d), uses, pe)
+            R.check(w is None and bool(uses), rule, '%s#dataset-length' % fn.q, fn.site,
+                    'the dataset length from the file is used (cursor + length handed to a decoder / skipped) without a successful '
+                    'ensure_bytes_available(length): %s' % describe(fn, w))
+        # type byte
+        derefs = []
+        for n in fn.all_nodes():
+            if n.get('k') == 'unop' and n.get('op') == '*':
+                for x in fn.subtree(n['sub']):
+                    if _is_this_field(fn, x) and _is_ptr_t(fn.nodes[x].get('t')) and fn.nodes[x]['name'] != 'this':
+                        derefs.append(n['id'])
+                        break
+        if not derefs:
+            R.broken('decode_data: no dereference of the input cursor found')
+        pe = classify_edges(fn, eba_with(lambda f, x: (f.const_value(x) or 0) >= 1))
+        advances = ['entry'] + [n['id'] for n in fn.all_nodes() if n.get('k') == 'assign' and _is_this_field(fn, n['lhs']) and _is_ptr_t(fn.sn(n['lhs']).get('t'))]
+        w = reaches_unchecked(fn, advances, derefs, pe)
+        R.check(w is None, rule, '%s#type-byte' % fn.q, fn.site,
+                'the dataset type byte is read without a successful ensure_bytes_available(>=1) since the cursor last moved: %s' % describe(fn, w))
+    if not fb.fns(O5M + '::decode_data'):
+        R.broken('O5mParser::decode_data not found')
+    for fn in fb.fns(O5M + '::decode_header'):
+        need = 0
+        readers = []
+        for c in fn.all_nodes():
+            if c.get('k') == 'call' and c.get('rcls') == O5M and c.get('q') != eba:
+                for g in fb.by_usr.get(c.get('u'), [])[:1]:
+                    k = _consumption(g)
+                    if k:
+                        need += k
+                        readers.append(c['id'])
+        if not readers:
+            R.broken('decode_header: no header-reading callee found')
+            continue
+        pe = classify_edges(fn, eba_with(lambda f, x, need=need: (f.const_value(x) or 0) >= need))
+        w = reaches_unchecked(fn, ['entry'], readers, pe)
+        R.check(w is None, rule, '%s#header-bytes' % fn.q, fn.site,
+                'the %d header bytes are read without a successful ensure_bytes_available(>= %d): %s' % (need, need, describe(fn, w)))
+    if not fb.fns(O5M + '::decode_header'):
+        R.broken('O5mParser::decode_header not found')
+    # ---- (e) cursor dereferences
+    rule = 'G5-o5m-cursor-deref-end-checked'
+    S = {}
+    flows = {}
+    for rnd in range(8):
+        changed = False
+        for fn in fns:
+            cf = CursorFlow(fn, S).run()
+            flows[id(fn)] = cf
+            new = {'pre': frozenset(cf.pre), 'ret': bool(cf.ret_ok)}
+            if S.get(fn.usr) != new:
+                S[fn.usr] = new
+                changed = True
+        if not changed:
+            break
+    else:
+        R.broken('o5m cursor analysis did not converge')
+    for fn in fns:
+        cf = flows[id(fn)]
+        per = {}
+        for (c, nid, lvl, what) in cf.events:
+            per.setdefault(c, []).append((nid, lvl, what))
+        for c, evs in per.items():
+            name = cf.cursors[c][1]
+            disp = ('*' + name) if cf.cursors[c][0] == 'pp' else name
+            bad = [(nid, what) for (nid, lvl, what) in evs if lvl == UNCHECKED]
+            R.check(not bad, rule, '%s#cursor:%s' % (fn.q, disp), fn.loc(evs[0][0]),
+                    'input cursor %s: %s at %s is reachable after the cursor was advanced / assigned without a comparison against the end '
+                    'pointer in between (read past the end of the dataset on truncated input)'
+                    % (disp, bad[0][1] if bad else '', fn.loc(bad[0][0]) if bad else ''))
+
+
+def _table_entries(fn, idxcall):
+    """N of `(... ) % N` in the definition of the index variable (number of slots), else None."""
+    vs = [r for a in idxcall.get('args', []) if a is not None for r in local_roots(fn, a) if r[0] == 'var']
+    for r in vs:
+        for d in definitions(fn, r[1]):
+            for x in fn.subtree(d):
+                n = fn.nodes[x]
+                if n.get('k') == 'binop' and n.get('op') == '%':
+                    return fn.const_value(n['rhs'])
+    return None
+
+
+def _entry_size(fn, idxcall_id):
+    n = fn.nodes[idxcall_id]
+    for a in n.get('args', []):
+        if a is None:
+            continue
+        m = fn.sn(a)
+        if m is not None and m.get('k') == 'binop' and m.get('op') == '*':
+            for side in (m['lhs'], m['rhs']):
+                v = fn.const_value(side)
+                if v is not None:
+                    return v
+    return None
+
+
+def _consumption(g):
+    """bytes by which a method advances a pointer member through constant steps (++ / += const)."""
+    k = 0
+    for n in g.all_nodes():
+        if n.get('k') == 'unop' and n.get('op') == '++' and _is_this_field(g, n['sub']) and _is_ptr_t(g.sn(n['sub']).get('t')):
+            k += 1
+        elif n.get('k') == 'assign' and n.get('op') == '+=' and _is_this_field(g, n['lhs']) and _is_ptr_t(g.sn(n['lhs']).get('t')):
+            v = g.const_value(n['rhs'])
+            if v is not None:
+                k += v
+    return k
+
+
 # ------------------------------------------------------------------------------------------------ G6 member types
 
 def _item_type_values(fb):
@@ -498,7 +777,7 @@ def g6_member_types(fb, R):
     # (1) explicit casts of a computed integer to item_type in the parsers
     n1 = 0
     for fn in fb.functions:
-        if not fn.has_cfg or '/io/detail/' not in fn.file:
+        if not fn.has_cfg or not _parser_file(fn):
             continue
         for n in fn.all_nodes():
             if n.get('k') != 'cast' or n.get('toC') != 'osmium::item_type' or fn.const_value(n['id']) is not None:
@@ -525,7 +804,7 @@ def g6_member_types(fb, R):
     # (2) nwr_index_to_item_type(v - k) in the parsers
     n2 = 0
     for fn in fb.functions:
-        if not fn.has_cfg or '/io/detail/' not in fn.file:
+        if not fn.has_cfg or not _parser_file(fn):
             continue
         for c in fn.all_nodes():
             if c.get('k') != 'call' or c.get('q') != 'osmium::nwr_index_to_item_type' or not c.get('args'):
@@ -550,7 +829,7 @@ def g6_member_types(fb, R):
     # (3) add_member(type, ...) with a type local produced by char_to_item_type: allowed-set test
     n3 = 0
     for fn in fb.functions:
-        if not fn.has_cfg or '/io/detail/' not in fn.file:
+        if not fn.has_cfg or not _parser_file(fn):
             continue
         cands = {}
         for c in fn.all_nodes():
@@ -617,6 +896,840 @@ def _fed_by(fb, fn, d, callee_q):
     return False
 
 
+
+# ------------------------------------------------------------------------------------------------ G7 expat boundary
+
+def _fn_args(fn, c):
+    out = []
+    for a in c.get('args', []) or []:
+        n = fn.sn(a) if a is not None else None
+        if n is not None and n.get('k') == 'unop' and n.get('op') == '&':
+            n = fn.sn(n['sub'])
+        if n is not None and n.get('k') == 'var' and n.get('vk') == 'function' and n.get('q'):
+            out.append(n['q'])
+    return out
+
+
+def _noexcept_chain(fb, root, depth=8):
+    """root plus the noexcept osmium functions it reaches through resolved calls without leaving noexcept functions."""
+    out = []
+    seen = set()
+    work = [(root, 0)]
+    while work:
+        f, d = work.pop()
+        if id(f) in seen:
+            continue
+        seen.add(id(f))
+        out.append(f)
+        if d >= depth:
+            continue
+        for c in f.calls():
+            for g in fb.by_usr.get(c.get('u'), []):
+                if g.noexcept and g.has_cfg:
+                    work.append((g, d + 1))
+    return out
+
+
+def g7_expat(fb, R, esc):
+    rule = 'G7-expat-callbacks-contained'
+    regs = []
+    for fn in fb.functions:
+        if not fn.has_cfg or not (fn.cls or '').startswith(XMLP):
+            continue
+        for c in fn.all_nodes():
+            if c.get('k') == 'call' and (c.get('q') or '').startswith('XML_Set') and (c.get('q') or '').endswith('Handler'):
+                regs.append((fn, c))
+    if not regs:
+        R.broken('no XML_Set*Handler registration found')
+        return
+    chain_fns = {}
+    callbacks = []
+    for (fn, c) in regs:
+        qs = _fn_args(fn, c)
+        if not qs:
+            R.broken('%s: %s is not given a named function' % (fn.q, c['q']))
+        for q in qs:
+            for g in fb.fns(q):
+                callbacks.append((c['q'], g))
+    for (setter, g) in callbacks:
+        msgs = []
+        if not g.noexcept:
+            msgs.append('%s is not noexcept (an exception would unwind through the C frames of expat)' % g.q)
+        for h in _noexcept_chain(fb, g):
+            chain_fns[id(h)] = h
+            e = esc.body_escapes(h)
+            if e:
+                t = sorted(e)[0]
+                msgs.append('%s can escape the body of noexcept %s (std::terminate): %s' % (t, h.q, esc.chain(e[t], t)))
+        R.check(not msgs, rule, '%s#registered-with:%s' % (g.q, setter), g.site, '; '.join(msgs))
+    # the catch-all that contains the exceptions stores it and stops the parser
+    n_catch = 0
+    for h in chain_fns.values():
+        for (t, hd) in catch_alls(h):
+            n_catch += 1
+            b = handler_entry_block(h, hd)
+            if b is None:
+                R.broken('%s: catch-all handler block not found' % h.q)
+                continue
+            stores = []
+            stops = []
+            for n in h.all_nodes():
+                if n.get('k') == 'call' and h.in_range(n['id'], hd['b'], hd['e']):
+                    if n.get('q') == 'XML_StopParser':
+                        stops.append(n['id'])
+                    if n.get('op') == '=' and any(h.nodes[x].get('q') == 'std::current_exception' for x in h.subtree(n['id'])) \
+                            and n.get('recv') is not None and h.is_this_member(n['recv']):
+                        stores.append(n['id'])
+            w1 = must_pass(h, b, [elem_of(h, x) for x in stores]) if stores else ['no store']
+            w2 = must_pass(h, b, [elem_of(h, x) for x in stops]) if stops else ['no stop']
+            R.check(w1 is None and w2 is None, 'G7-expat-exception-stored-and-parser-stopped', '%s#catch-all' % h.q, h.site,
+                    'the catch-all on the expat boundary must store std::current_exception() in a member and call XML_StopParser on every path '
+                    '(otherwise the error is lost / parsing continues on a half-updated state machine)')
+    if n_catch == 0:
+        R.bad('G7-expat-exception-stored-and-parser-stopped', EXPAT + '#catch-all', regs[0][0].site,
+              'no catch (...) on the call chain of the expat callbacks')
+    # entity declarations rejected
+    ent = [(fn, c) for (fn, c) in regs if c['q'] == 'XML_SetEntityDeclHandler']
+    ctors = fb.fns(EXPAT + '::(ctor)')
+    for fn in ctors:
+        mine = [c['id'] for (f2, c) in ent if f2 is fn]
+        w = must_pass(fn, fn.entry, mine) if mine else ['missing']
+        ok = w is None
+        msg = 'the constructor does not register an entity-declaration handler on every path (billion-laughs expansion inside expat)'
+        if ok:
+            for (f2, c) in ent:
+                if f2 is not fn:
+                    continue
+                for q in _fn_args(fn, c):
+                    for g in fb.fns(q):
+                        lams = fb.lambdas_in(g)
+                        throws_always = bool(lams) and all(
+                            path_search(l, l.entry, _exit_t, lambda x, l=l: l.nodes.get(x, {}).get('k') == 'throw', from_block_start=True) is None
+                            and any(n.get('k') == 'throw' for n in l.all_nodes()) for l in lams)
+                        direct = any(n.get('k') == 'throw' for n in g.all_nodes())
+                        if not (throws_always or direct):
+                            ok = False
+                            msg = 'the entity-declaration handler %s does not throw' % g.q
+        R.check(ok, 'G7-expat-entity-declarations-rejected', fn.q + '#XML_SetEntityDeclHandler', fn.site, msg)
+    if not ctors:
+        R.broken('ExpatXMLParser constructor not found')
+    # XML_Parse error branch
+    ops = fb.fns(EXPAT + '::operator()')
+    if not ops:
+        R.broken('ExpatXMLParser::operator() not found')
+    for fn in ops:
+        parses = [c for c in fn.all_nodes() if c.get('k') == 'call' and c.get('q') == 'XML_Parse']
+        if len(parses) != 1:
+            R.broken('%s: expected exactly one XML_Parse call' % fn.q)
+            continue
+        pc = parses[0]
+
+        def is_err(f, x, pc=pc):
+            p = cmp_parts(f, x)
+            if p is None:
+                return None
+            op, l, r = p
+            if f.strip(l) == pc['id']:
+                other = r
+            elif f.strip(r) == pc['id']:
+                other = l
+            else:
+                return None
+            v = f.const_value(other)
+            if v == 0 and op == '==':
+                return 'T'
+            if v == 0 and op == '!=':
+                return 'F'
+            if v == 1 and op == '!=':
+                return 'T'
+            if v == 1 and op == '==':
+                return 'F'
+            return None
+        err_edges = classify_edges(fn, is_err)
+        key = fn.q + '#parse-error'
+        if not err_edges:
+            R.bad('G7-expat-parse-error-rethrows-stored-first', key, fn.loc(pc['id']), 'the result of XML_Parse is not compared with XML_STATUS_ERROR')
+            continue
+        ok = True
+        msg = ''
+        rethrows = [n for n in fn.all_nodes() if n.get('k') == 'call' and n.get('q') == 'std::rethrow_exception']
+
+        def ends(x):
+            n = fn.nodes.get(x, {})
+            return n.get('k') == 'throw' or (n.get('k') == 'call' and n.get('q') == 'std::rethrow_exception')
+        for (b, idx) in err_edges:
+            s = fn.blocks[b]['succs'][idx]
+            if s is None:
+                continue
+            w = path_search(fn, s, _exit_t, ends, from_block_start=True)
+            if w is not None:
+                ok = False
+                msg = 'the error branch of XML_Parse can return normally'
+        if not rethrows:
+            ok = False
+            msg = 'the stored exception is never rethrown'
+        for n in fn.all_nodes():
+            if n.get('k') == 'throw' and not n.get('rethrow'):
+                g = guards(fn, n['id'])
+                first = any((not sense) and _reads_exception_ptr(fn, cn) for (cn, sense, _b) in g)
+                if not first:
+                    ok = False
+                    msg = 'the parser\'s own xml_error is thrown without first testing the stored exception (the real cause is masked)'
+        for n in rethrows:
+            g = guards(fn, n['id'])
+            if not any(sense and _reads_exception_ptr(fn, cn) for (cn, sense, _b) in g):
+                ok = False
+                msg = 'std::rethrow_exception is not guarded by a test of the stored exception_ptr (rethrowing a null pointer terminates)'
+        R.check(ok, 'G7-expat-parse-error-rethrows-stored-first', key, fn.loc(pc['id']), msg)
+
+
+def _reads_exception_ptr(fn, cid):
+    for x in fn.subtree(cid):
+        n = fn.nodes[x]
+        if n.get('k') == 'member' and n.get('field') and 'exception_ptr' in (n.get('t') or ''):
+            return True
+    return False
+
+
+# ------------------------------------------------------------------------------------------------ G9 UTF-8 decode
+
+def g9_utf8(fb, R, selftest=False):
+    fns = fb.fns('osmium::io::detail::next_utf8_codepoint')
+    if not fns:
+        R.broken('next_utf8_codepoint not found')
+        return
+    for fn in fns:
+        # the byte cursor: a pointer local that is incremented
+        its = set()
+        for n in fn.all_nodes():
+            if n.get('k') == 'unop' and n.get('op') == '++':
+                s = fn.sn(n['sub'])
+                if s is not None and s.get('k') == 'var' and s.get('vk') == 'local' and _is_ptr_t(s.get('t')):
+                    its.add(s['d'])
+        if len(its) != 1 or len(fn.switches) != 1:
+            R.broken('next_utf8_codepoint: expected one byte cursor and one switch over the sequence length')
+            continue
+        it = list(its)[0]
+        sw = next((b for b in fn.blocks.values() if b.get('termcls') == 'SwitchStmt'), None)
+        lroot = [r for r in local_roots(fn, sw['cond']) if r[0] == 'var'] if sw else []
+        if len(lroot) != 1:
+            R.broken('next_utf8_codepoint: switch condition is not a single local')
+            continue
+        ln = lroot[0]
+        ends = {('var', p['d']) for p in fn.params if _is_ptr_t(p['tC']) and not p['tC'].endswith('**')}
+
+        def is_dist(f, x):
+            n = f.sn(x)
+            if n is None:
+                return False
+            r = local_roots(f, x)
+            if ('var', it) not in r or not (r & ends) or not r <= (ends | {('var', it)}):
+                return False
+            return (n.get('k') == 'call' and n.get('q') == 'std::distance') or (n.get('k') == 'binop' and n.get('op') == '-')
+        pe = classify_edges(fn, lower_bound(is_dist, _rooted_in({ln})))
+        # continuation reads: dereferences of the cursor after an increment
+        targets = []
+        for b in fn.blocks.values():
+            inc = False
+            for e in b['elems']:
+                n = fn.nodes[e]
+                if n.get('k') == 'unop' and n.get('op') == '++' and (fn.sn(n['sub']) or {}).get('d') == it:
+                    inc = True
+                elif inc and n.get('k') == 'unop' and n.get('op') == '*' and (fn.sn(n['sub']) or {}).get('d') == it:
+                    targets.append(e)
+        if not targets:
+            R.broken('next_utf8_codepoint: no continuation-byte read found')
+            continue
+        w = reaches_unchecked(fn, ['entry'], targets, pe)
+        R.check(w is None, 'G9-utf8-length-test-before-continuation', fn.q + '#continuation-bytes', fn.site,
+                'continuation bytes are read without first passing distance(it, end) >= length (read past the end of a truncated string): %s' % describe(fn, w))
+        # each case reads at most its length
+        bad = []
+        ncase = 0
+        for b in fn.blocks.values():
+            lab = b.get('label') or {}
+            if 'case' not in lab:
+                continue
+            k = fn.const_value(lab['case'])
+            if k is None:
+                continue
+            ncase += 1
+            incs = 0
+            seen = set()
+            work = [b['id']]
+            while work:
+                x = work.pop()
+                if x in seen:
+                    continue
+                seen.add(x)
+                blk = fn.blocks[x]
+                for e in blk['elems']:
+                    n = fn.nodes[e]
+                    if n.get('k') == 'unop' and n.get('op') == '++' and (fn.sn(n['sub']) or {}).get('d') == it:
+                        incs += 1
+                if blk.get('termcls') == 'BreakStmt':
+                    continue
+                for s2 in fn.succs(x):
+                    if (fn.blocks[s2].get('label') or {}).get('case') is None and s2 != fn.exit:
+                        work.append(s2)
+                    elif (fn.blocks[s2].get('label') or {}).get('case') is not None:
+                        bad.append('case %d falls through' % k)
+            if incs > k - 1:
+                bad.append('case %d advances %d times (at most %d continuation bytes were tested)' % (k, incs, k - 1))
+        R.check(not bad and ncase > 0, 'G9-utf8-case-reads-its-length', fn.q + '#cases', fn.site, '; '.join(bad) or 'no case labels found')
+
+
+# ------------------------------------------------------------------------------------------------ NUL layout
+
+_NULSCAN = ('memchr', 'std::memchr', 'strlen', 'std::strlen', 'strnlen', 'std::basic_string::find', 'std::basic_string::find_first_of',
+            'std::find', 'std::count', 'std::any_of', 'std::none_of', 'std::char_traits::find', 'std::basic_string_view::find')
+_STR_NEUTRAL = ('clear', 'size', 'length', 'empty', 'reserve', 'capacity', 'c_str', 'data', 'begin', 'end', 'cbegin', 'cend', 'shrink_to_fit',
+                'operator[]', 'at', 'back', 'front', 'compare', 'find', 'substr')
+
+
+def _always_throws_from(fn, b):
+    if b is None:
+        return False
+    return path_search(fn, b, _exit_t, lambda x: fn.nodes.get(x, {}).get('k') == 'throw', from_block_start=True) is None
+
+
+def _nul_scan_edges(fn, subj):
+    """pass edges of conditions that scan the subject for NUL bytes and whose other edge always throws."""
+    from ..errdisc import effective_cond
+    out = set()
+    for blk in fn.blocks.values():
+        if 'cond' not in blk or len(blk['succs']) != 2 or blk.get('termcls') == 'SwitchStmt':
+            continue
+        c = effective_cond(fn, blk)
+        if c is None:
+            continue
+        hit = False
+        for x in fn.subtree(c):
+            n = fn.nodes[x]
+            if n.get('k') == 'call' and n.get('q') in _NULSCAN:
+                r = set()
+                for a in (n.get('args') or []) + ([n['recv']] if n.get('recv') is not None else []):
+                    if a is not None:
+                        r |= local_roots(fn, a)
+                if r & subj:
+                    hit = True
+        if not hit:
+            continue
+        t, f = blk['succs']
+        if _always_throws_from(fn, t) and not _always_throws_from(fn, f):
+            out.add((blk['id'], 1))
+        elif _always_throws_from(fn, f) and not _always_throws_from(fn, t):
+            out.add((blk['id'], 0))
+    return out
+
+
+def _length_carrying_overloads(fb):
+    """{usr: (fn, [append call nodes with an explicit length])} for TagListBuilder::add_tag."""
+    out = {}
+    for (fn, c, ps) in builder_append_sites(fb):
+        if fn.q != 'osmium::builder::TagListBuilder::add_tag':
+            continue
+        if len([a for a in c.get('args', []) if a is not None]) >= 2:
+            out.setdefault(fn.usr, (fn, []))[1].append((c, ps))
+    return out
+
+
+def _overload_rejects_nul(fn, sites):
+    for (c, ps) in sites:
+        subj = {('var', d) for d in ps}
+        pe = _nul_scan_edges(fn, subj)
+        if reaches_unchecked(fn, ['entry'], [c['id']], pe) is not None:
+            return False
+    return True
+
+
+def _producer_ok(fb, g, idx, memo, depth=0):
+    """every byte g appends to its std::string& parameter idx is provably non-NUL."""
+    key = (g.usr, idx)
+    if key in memo:
+        return memo[key]
+    memo[key] = True     # optimistic for recursion
+    ok = True
+    if idx >= len(g.params) or depth > 5:
+        memo[key] = False
+        return False
+    d = g.params[idx]['d']
+
+    def is_p(nid):
+        n = g.sn(nid)
+        return n is not None and n.get('k') == 'var' and n.get('d') == d
+    for c in g.all_nodes():
+        if c.get('k') not in ('call', 'construct') or 'q' not in c:
+            continue
+        if c.get('recv') is not None and is_p(c['recv']):
+            name = _method_name(c['q'])
+            if name in _STR_NEUTRAL:
+                continue
+            args = [a for a in c.get('args', []) if a is not None]
+            if name in ('operator+=', 'push_back') and len(args) == 1:
+                if not _nonzero_char(g, args[0], c['id']):
+                    ok = False
+                continue
+            ok = False
+            continue
+        for i, a in enumerate(c.get('args', []) or []):
+            if a is None or not is_p(a):
+                continue
+            if c['q'] == 'std::back_inserter':
+                # the iterator is handed to a code-point encoder: the code point must be tested non-zero
+                pm = g.parent_map()
+                x = c['id']
+                outer = None
+                hops = 0
+                while x in pm and hops < 8:
+                    x = pm[x]
+                    hops += 1
+                    if g.nodes[x].get('k') == 'call' and g.nodes[x]['id'] != c['id']:
+                        outer = g.nodes[x]
+                        break
+                if outer is None or not outer.get('args'):
+                    ok = False
+                    continue
+                vr = {r for r in local_roots(g, outer['args'][0]) if r[0] == 'var'}
+                good = False
+                for (cn, sense, _b) in guards(g, outer['id']):
+                    p = cmp_parts(g, cn)
+                    if p and local_roots(g, p[1]) == vr and g.const_value(p[2]) == 0:
+                        if (p[0] == '==' and not sense) or (p[0] == '!=' and sense) or (p[0] == '>' and sense):
+                            good = True
+                if not good:
+                    ok = False
+                continue
+            tg = fb.by_usr.get(c.get('u'), [])
+            if not tg:
+                ok = False
+                continue
+            for h in tg[:1]:
+                if not _producer_ok(fb, h, i, memo, depth + 1):
+                    ok = False
+    memo[key] = ok
+    return ok
+
+
+def _nonzero_char(g, aid, at):
+    v = g.const_value(aid)
+    if v is not None:
+        return v != 0
+    n = g.sn(aid)
+    if n is not None and n.get('k') == 'unop' and n.get('op') == '*':
+        pv = local_roots(g, n['sub'])
+        for (cn, sense, _b) in guards(g, at):
+            p = cmp_parts(g, cn)
+            if p is None:
+                continue
+            l = g.sn(p[1])
+            if l is not None and l.get('k') == 'unop' and l.get('op') == '*' and local_roots(g, l['sub']) == pv and g.const_value(p[2]) == 0:
+                if (p[0] == '==' and not sense) or (p[0] == '!=' and sense):
+                    return True
+    return False
+
+
+def nul_layout(fb, R):
+    rule = 'NUL-tag-strings-have-no-interior-nul'
+    # premise: Tag walks its strings by searching for the terminator
+    walkers = [f for f in fb.fns('osmium::Tag::after_null') + fb.fns('osmium::Tag::next') + fb.fns('osmium::Tag::value')]
+    scans = any(c.get('q') in ('strchr', 'std::strchr', 'strlen', 'std::strlen', 'rawmemchr', 'memchr', 'std::memchr')
+                for f in walkers for c in f.all_nodes() if c.get('k') == 'call')
+    if not walkers or not scans:
+        R.broken('osmium::Tag no longer locates its strings by scanning for NUL: the NUL-layout rule needs to be re-derived')
+        return
+    ovs = _length_carrying_overloads(fb)
+    if not ovs:
+        R.broken('no length-carrying TagListBuilder::add_tag overload found')
+        return
+    safe = {u: _overload_rejects_nul(fn, sites) for u, (fn, sites) in ovs.items()}
+    # string table entries NUL-free?  (alternative fix location)
+    table_ok = False
+    rec = fb.record(PBD)
+    F = next((f['name'] for f in rec.fields if f['tC'].startswith('std::vector<std::pair<const char *')), None) if rec else None
+    for fn in fb.functions:
+        if fn.cls == PBD and fn.has_cfg and F:
+            for c in fn.all_nodes():
+                if c.get('k') == 'call' and _method_name(c.get('q', '')) in _INSERT and _recv_field(fn, c) == F:
+                    subj = {r for a in c.get('args', []) if a is not None for r in local_roots(fn, a) if r[0] == 'var'}
+                    pe = _nul_scan_edges(fn, subj)
+                    starts = [d for r in subj for d in starts_for(fn, r[1])]
+                    table_ok = bool(pe) and reaches_unchecked(fn, starts, [c['id']], pe) is None
+    memo = {}
+    n = 0
+    for fn in fb.functions:
+        if not fn.has_cfg or not _parser_file(fn):
+            continue
+        for c in fn.all_nodes():
+            if c.get('k') != 'call' or c.get('u') not in ovs:
+                continue
+            ov = ovs[c['u']][0]
+            n += 1
+            key = '%s#add_tag%s' % (fn.q, sig(ov))
+            if safe[c['u']]:
+                R.ok(rule, key, fn.loc(c['id']), 'the overload rejects interior NUL bytes')
+                continue
+            # origin of the string arguments
+            rs = set()
+            for a in c.get('args', []):
+                if a is not None:
+                    rs |= {r for r in local_roots(fn, a) if r[0] == 'var'}
+            verdict = None
+            why = ''
+            unknown = []
+            for r in sorted(rs, key=lambda r: var_name(fn, r[1])):
+                origin = _origin(fb, fn, r[1], F, memo)
+                if origin == 'table':
+                    if not table_ok:
+                        verdict = False
+                        why = ('%s is an entry of the PBF string table (length-delimited bytes from the file, may contain NUL) and is copied with its '
+                               'length; Tag::next()/value() then walk by strchr and leave the item' % var_name(fn, r[1]))
+                elif origin == 'nulfree':
+                    pass
+                elif origin == 'producer':
+                    verdict = False
+                    why = why or ('%s is a std::string filled by a parser helper that can append a NUL byte (every append must be a non-zero '
+                                  'constant, a character tested != 0, or a code point tested != 0)' % var_name(fn, r[1]))
+                else:
+                    unknown.append(var_name(fn, r[1]))
+            if verdict is None and unknown:
+                R.broken('%s: origin of add_tag argument(s) %s is of an unknown kind; the NUL-layout rule cannot decide this call' % (fn.q, ', '.join(unknown)))
+                continue
+            R.check(verdict is None, rule, key, fn.loc(c['id']), why)
+    if n == 0:
+        R.broken('no parser call of a length-carrying add_tag overload found')
+
+
+def _origin(fb, fn, d, F, memo):
+    """'table' (reference to a string-table entry), 'nulfree' (std::string local only written by verified producers),
+    'producer' (std::string local with a writer that may append NUL), None (unknown kind)."""
+    for n in fn.all_nodes():
+        if n.get('k') == 'decl':
+            for v in n['vars']:
+                if v['d'] != d:
+                    continue
+                if isinstance(v.get('init'), int):
+                    for x in fn.subtree(v['init']):
+                        m = fn.nodes[x]
+                        if m.get('k') == 'call' and _recv_field(fn, m) == F and F is not None:
+                            return 'table'
+                if not v['tC'].startswith(('std::basic_string<char', 'std::__cxx11::basic_string<char', 'std::string')):
+                    return None
+                # every writer of the local
+                ok = True
+                for c in fn.all_nodes():
+                    if c.get('k') not in ('call', 'construct') or 'q' not in c:
+                        continue
+                    if c.get('recv') is not None and (fn.sn(c['recv']) or {}).get('d') == d:
+                        if _method_name(c['q']) not in _STR_NEUTRAL:
+                            ok = False
+                        continue
+                    for i, a in enumerate(c.get('args', []) or []):
+                        if a is None or (fn.sn(a) or {}).get('d') != d or (fn.sn(a) or {}).get('k') != 'var':
+                            continue
+                        tg = fb.by_usr.get(c.get('u'), [])
+                        if not tg:
+                            ok = False
+                            continue
+                        g = tg[0]
+                        if i < len(g.params) and g.params[i]['tC'].startswith('const '):
+                            continue
+                        if not _producer_ok(fb, g, i, memo):
+                            ok = False
+                return 'nulfree' if ok else 'producer'
+    return None
+
+
+
+# ------------------------------------------------------------------------------------------------ TS  XML state machine
+
+_OPENER = 'osmium::builder::ChangesetDiscussionBuilder::add_comment'
+_CLOSER = 'osmium::builder::ChangesetDiscussionBuilder::add_comment_text'
+
+
+class _Cases:
+    """case regions of the switch over the context stack in one handler function."""
+
+    def __init__(self, fn):
+        self.fn = fn
+        self.label_block = {}       # enumerator name -> block id
+        for b in fn.blocks.values():
+            lab = b.get('label') or {}
+            if 'case' in lab:
+                n = fn.sn(lab['case'])
+                if n is not None and n.get('k') == 'var' and n.get('vk') == 'enumconst':
+                    self.label_block[n['name']] = b['id']
+        self._region = {}
+
+    def region(self, name):
+        """blocks executed for `case name` (through fall-through), up to and including the block that breaks / returns / throws."""
+        if name in self._region:
+            return self._region[name]
+        fn = self.fn
+        out = set()
+        work = [self.label_block[name]] if name in self.label_block else []
+        while work:
+            b = work.pop()
+            if b in out or b == fn.exit:
+                continue
+            out.add(b)
+            if fn.blocks[b].get('termcls') == 'BreakStmt':
+                continue
+            work.extend(fn.succs(b))
+        self._region[name] = out
+        return out
+
+    def case_of(self, nid):
+        """enumerator names whose region contains node nid."""
+        pos = self.fn.positions()
+        if nid not in pos:
+            return []
+        b = pos[nid][0]
+        return sorted(k for k in self.label_block if b in self.region(k))
+
+    def own_case_of(self, nid):
+        """the case label(s) from which nid is reached first (regions that include it, minus those that only fall into it)."""
+        names = self.case_of(nid)
+        return names
+
+
+def _builder_fields(fb):
+    rec = fb.record(XMLP)
+    if rec is None:
+        return None
+    derived = {r.q for r in fb.derived_from(BUILDER)}
+    out = {}
+    for f in rec.fields:
+        t = f['tC']
+        if t.startswith('std::unique_ptr<'):
+            inner = t[len('std::unique_ptr<'):].split('<')[0].split(',')[0].rstrip('>').strip()
+            if inner in derived:
+                out[f['name']] = inner
+    return out
+
+
+def _field_events(fb, fn, fields, depth=1):
+    """[(kind, field, node id, extra)] kind in open/reset/use; calls of XMLParser methods contribute their own opens/uses
+    (one level) at the call node."""
+    ev = []
+    for c in fn.all_nodes():
+        if c.get('k') != 'call' or 'q' not in c:
+            continue
+        f = _recv_field(fn, c)
+        name = _method_name(c['q'])
+        if f in fields:
+            rn = fn.sn(c['recv']) if c.get('recv') is not None else None
+            direct = rn is not None and rn.get('k') == 'member' and rn.get('field')
+            if direct and name == 'reset' and c['q'].startswith('std::unique_ptr'):
+                has_arg = any(a is not None and fn.const_value(a) is None and (fn.sn(a) or {}).get('k') != 'lit' for a in c.get('args', []))
+                ev.append(('open' if has_arg else 'reset', f, c['id'], None))
+            elif direct and c.get('op') == '=' and c['q'].startswith('std::unique_ptr'):
+                mk = [fn.nodes[x] for a in c.get('args', []) if a is not None for x in fn.subtree(a)
+                      if fn.nodes[x].get('k') == 'call' and fn.nodes[x].get('q') in ('std::make_unique',) or fn.nodes[x].get('k') == 'new']
+                if mk:
+                    ev.append(('open', f, c['id'], mk[0]))
+                else:
+                    ev.append(('reset', f, c['id'], None))
+            elif not c['q'].startswith('std::unique_ptr') and (c.get('rcls') or '').startswith('osmium::builder::'):
+                ev.append(('use', f, c['id'], c['q']))
+        elif depth > 0 and c.get('rcls') == XMLP and c.get('u'):
+            for g in fb.by_usr.get(c['u'], [])[:1]:
+                for (k2, f2, _n2, x2) in _field_events(fb, g, fields, depth - 1):
+                    if k2 in ('open', 'use'):
+                        ev.append((k2, f2, c['id'], x2))
+    return ev
+
+
+def _parent_field(fb, fn, ev, fields):
+    """field of the object builder a sub-builder is constructed on (argument `*m_x_builder`), for an open event."""
+    (_k, _f, _nid, mk) = ev
+    if not isinstance(mk, dict):
+        return None
+    for a in mk.get('args', []) or []:
+        if a is None:
+            continue
+        for x in fn.subtree(a):
+            n = fn.nodes[x]
+            if n.get('k') == 'member' and n.get('field') and n['name'] in fields and fn.is_this_member(x):
+                return n['name']
+    return None
+
+
+def ts_xml(fb, R):
+    fields = _builder_fields(fb)
+    if not fields:
+        R.broken('XMLParser builder members not found')
+        return
+    starts = fb.fns(XMLP + '::start_element')
+    ends = fb.fns(XMLP + '::end_element')
+    if not starts or not ends:
+        R.broken('XMLParser::start_element / end_element not found')
+        return
+    sfn, efn = starts[0], ends[0]
+    sc, ec = _Cases(sfn), _Cases(efn)
+    if not sc.label_block or not ec.label_block:
+        R.broken('XMLParser: no switch over the context enumeration found in the element handlers')
+        return
+    # object builders: opened from the buffer, linked to the context pushed next to them
+    obj = {}        # context name -> object builder field
+    for fn in fb.functions:
+        if fn.cls != XMLP or not fn.has_cfg or fn.is_lambda:
+            continue
+        pushes = []
+        for c in fn.all_nodes():
+            if c.get('k') == 'call' and _method_name(c.get('q', '')) == 'push_back' and _recv_field(fn, c) is not None and c.get('args'):
+                a = fn.sn(c['args'][0])
+                if a is not None and a.get('k') == 'var' and a.get('vk') == 'enumconst' and a.get('q', '').startswith(XMLP + '::context'):
+                    pushes.append((c['id'], a['name']))
+        for ev in _field_events(fb, fn, fields, depth=0):
+            if ev[0] != 'open' or not isinstance(ev[3], dict):
+                continue
+            from_buffer = any(fn.nodes[x].get('k') == 'call' and _method_name(fn.nodes[x].get('q', '')) == 'buffer'
+                              for a in ev[3].get('args', []) if a is not None for x in fn.subtree(a))
+            if not from_buffer:
+                continue
+            doms = [(pid, name) for (pid, name) in pushes if fn.elem_dominates(pid, ev[2])]
+            if len(doms) != 1:
+                R.broken('%s: cannot link the construction of %s to exactly one pushed context' % (fn.q, ev[1]))
+                continue
+            obj[doms[0][1]] = ev[1]
+    if not obj:
+        R.broken('XMLParser: no object builder construction found')
+        return
+    # ---- sub-builders per context (start_element case regions)
+    sub = {}        # context -> {field: [event]}
+    for ctxname, ofield in obj.items():
+        reg = sc.region(ctxname)
+        pos = sfn.positions()
+        evs = [e for e in _field_events(fb, sfn, fields) if pos.get(e[2], (None,))[0] in reg]
+        cur = {}
+        for e in evs:
+            if e[0] in ('open', 'use') and e[1] != ofield and e[1] not in obj.values():
+                cur.setdefault(e[1], []).append(e)
+        sub[ctxname] = cur
+        resets = [e for e in evs if e[0] == 'reset']
+        for f, lst in cur.items():
+            for other in cur:
+                if other == f:
+                    continue
+                ok = all(any(r[1] == other and sfn.elem_dominates(r[2], e[2]) for r in resets) for e in lst)
+                R.check(ok, 'TS-sibling-builder-reset-first', '%s#context::%s:%s-requires-reset-of:%s' % (sfn.q, ctxname, f, other), sfn.loc(lst[0][2]),
+                        'inside <%s> the sub-builder %s is created / used while %s may still be open: both append to the same buffer, the older '
+                        'one must be reset() (padding written, sizes propagated) first' % (ctxname, f, other))
+    # sub-builders used in nested contexts (e.g. discussion -> comment) belong to the object whose context opened them
+    # ---- end_element: close order
+    for ctxname, ofield in obj.items():
+        reg = ec.region(ctxname)
+        key0 = '%s#context::%s' % (efn.q, ctxname)
+        if not reg:
+            R.bad('TS-end-closes-builders', key0 + ':closes:' + ofield, efn.site, 'end_element has no case for context %s' % ctxname)
+            continue
+        pos = efn.positions()
+        evs = [e for e in _field_events(fb, efn, fields, depth=0) if pos.get(e[2], (None,))[0] in reg]
+        oreset = [e for e in evs if e[0] == 'reset' and e[1] == ofield]
+        R.check(bool(oreset), 'TS-end-closes-builders', key0 + ':closes:' + ofield, efn.site,
+                'the end of <%s> does not reset %s: the next object would be built while this builder is alive' % (ctxname, ofield))
+        for f in sorted(sub.get(ctxname, {})):
+            rs = [e for e in evs if e[0] == 'reset' and e[1] == f]
+            ok = bool(rs) and bool(oreset) and all(any(efn.elem_dominates(r[2], o[2]) for r in rs) for o in oreset)
+            R.check(ok, 'TS-end-closes-builders', key0 + ':closes:%s-before:%s' % (f, ofield), efn.site,
+                    'the end of <%s> must reset the sub-builder %s before the object builder %s (its destructor writes padding and adds its size '
+                    'to the parent it points to; afterwards that parent is gone)' % (ctxname, f, ofield))
+        commits = [c for c in efn.all_nodes() if c.get('k') == 'call' and c.get('q') == 'osmium::memory::Buffer::commit' and pos.get(c['id'], (None,))[0] in reg]
+        ok = bool(commits) and bool(oreset) and all(any(efn.elem_dominates(o[2], c['id']) for o in oreset) for c in commits)
+        R.check(ok, 'TS-end-closes-builders', key0 + ':commit-after-close', efn.site,
+                'the end of <%s> must commit the buffer after the object builder was reset (committing an object whose padding is not yet written)' % ctxname)
+    # ---- add_comment obligation
+    openers = [c for c in sfn.all_nodes() if c.get('k') == 'call' and c.get('q') == _OPENER]
+    if not openers:
+        R.broken('XMLParser::start_element: no call of add_comment found')
+    for oc in openers:
+        pushes = []
+        for c in sfn.all_nodes():
+            if c.get('k') == 'call' and _method_name(c.get('q', '')) == 'push_back' and c.get('args'):
+                a = sfn.sn(c['args'][0])
+                if a is not None and a.get('k') == 'var' and a.get('vk') == 'enumconst' and sfn.elem_dominates(c['id'], oc['id']):
+                    pushes.append(a['name'])
+        if len(pushes) != 1:
+            R.broken('XMLParser::start_element: add_comment is not paired with exactly one pushed context')
+            continue
+        X = pushes[0]
+        gate = {sfn.expr(cn) for (cn, sense, _b) in guards(sfn, oc['id']) if sense and 'read_types' in sfn.expr(cn)}
+        reg = ec.region(X)
+        key = '%s#context::%s:add_comment' % (efn.q, X)
+        if not reg:
+            R.bad('TS-comment-obligation-closed', key, efn.site, 'end_element has no case for context %s' % X)
+            continue
+        closers = {c['id'] for c in efn.all_nodes() if c.get('k') == 'call' and c.get('q') == _CLOSER}
+        pruned = set()
+        for b in reg:
+            blk = efn.blocks[b]
+            if 'cond' in blk and len(blk['succs']) == 2 and efn.expr(blk['cond']) in gate:
+                pruned.add((b, 1))
+        # a closer guarded by an "is still open" test: the other edge of that test needs no closer
+        for cid in closers:
+            for (cn, sense, b) in guards(efn, cid):
+                if b in reg and efn.expr(cn) not in gate:
+                    pruned.add((b, 1 if sense else 0))
+        w = _region_escape(efn, ec.label_block[X], reg, closers, pruned)
+        R.check(w is None, 'TS-comment-obligation-closed', key, efn.loc(efn.blocks[ec.label_block[X]]['elems'][0]) if efn.blocks[ec.label_block[X]]['elems'] else efn.site,
+                'start_element calls add_comment() when it pushes context::%s, but the end of that element can be reached without add_comment_text() '
+                '(e.g. <comment/> without <text>): the comment keeps text_size 0 and no padding, traversal of the delivered changeset leaves the item' % X)
+        # closer runs at most once per opener
+        for c in efn.all_nodes():
+            if c.get('k') != 'call' or c.get('q') != _CLOSER:
+                continue
+            ys = ec.case_of(c['id'])
+            if not ys:
+                R.broken('XMLParser::end_element: add_comment_text outside the context switch')
+                continue
+            for Y in ys:
+                state_guard = any(efn.expr(cn) not in gate for (cn, sense, b) in guards(efn, c['id']) if b in ec.region(Y))
+                push_guard = False
+                for pc in sfn.all_nodes():
+                    if pc.get('k') == 'call' and _method_name(pc.get('q', '')) == 'push_back' and pc.get('args'):
+                        a = sfn.sn(pc['args'][0])
+                        if a is not None and a.get('name') == Y and a.get('vk') == 'enumconst':
+                            for (cn, sense, b) in guards(sfn, pc['id']):
+                                if any(sfn.nodes[x].get('k') == 'member' and sfn.nodes[x].get('field') and sfn.nodes[x]['name'] != 'm_context_stack'
+                                       and sfn.is_this_member(x) for x in sfn.subtree(cn)) and 'read_types' not in sfn.expr(cn):
+                                    push_guard = True
+                R.check(Y == X or state_guard or push_guard, 'TS-comment-closer-once', '%s#context::%s:add_comment_text' % (efn.q, Y), efn.loc(c['id']),
+                        'add_comment_text() runs at the end of every <%s> element, but the obligation was opened once by the enclosing <%s>: a second <%s> '
+                        'calls it with no open comment (null dereference), none leaves the comment open' % (Y, X, Y))
+    for c in sfn.all_nodes():
+        if c.get('k') == 'call' and c.get('q') == _CLOSER:
+            R.broken('XMLParser::start_element calls add_comment_text: unknown protocol shape')
+
+
+def _region_escape(fn, start, region, barrier_nodes, pruned_edges):
+    """block path from `start` that leaves the region (break / fall out / function exit) without executing a barrier call."""
+    pos = fn.positions()
+    bar_blocks = {pos[n][0] for n in barrier_nodes if n in pos}
+    seen = set()
+    work = [(start, [start])]
+    while work:
+        b, path = work.pop()
+        if b in seen:
+            continue
+        seen.add(b)
+        if b in bar_blocks:
+            continue
+        if b not in region or b == fn.exit:
+            return path
+        blk = fn.blocks[b]
+        if blk.get('termcls') == 'BreakStmt':
+            return path
+        ends_in_throw = any(fn.nodes[e].get('k') == 'throw' for e in blk['elems'])
+        if ends_in_throw:
+            continue
+        for idx, s in enumerate(blk['succs']):
+            if s is None or (b, idx) in pruned_edges:
+                continue
+            work.append((s, path + [s]))
+    return None
+
+
 # ------------------------------------------------------------------------------------------------ G8 thrown types
 
 _G8_DIRS = ('/osmium/io/', '/osmium/builder/', '/osmium/osm/', '/osmium/memory/', '/osmium/util/', '/osmium/osm.hpp', '/osmium/opl.hpp')
@@ -625,7 +1738,7 @@ _G8_DIRS = ('/osmium/io/', '/osmium/builder/', '/osmium/osm/', '/osmium/memory/'
 def g8_throw_types(fb, R):
     seen = set()
     for fn in fb.functions:
-        if not fn.has_cfg or not any(d in fn.file for d in _G8_DIRS):
+        if not fn.has_cfg or not (_SELFTEST[0] or any(d in fn.file for d in _G8_DIRS)):
             continue
         for n in fn.all_nodes():
             if n.get('k') != 'throw' or n.get('rethrow'):
@@ -685,6 +1798,59 @@ def run(ctx):
         g1_g2_stringtable(fb, R, esc)
         g3_builder_lengths(fb, R)
         g4_blobs(fb, R)
+        g5_o5m(fb, R)
         g6_member_types(fb, R)
+        g7_expat(fb, R, esc)
         g8_throw_types(fb, R)
+        g9_utf8(fb, R)
+        nul_layout(fb, R)
+        ts_xml(fb, R)
         a1_who_may_abort(fb, R)
+    # instance floors: counted by hand on the pristine tree (see the rule table in the module docstring)
+    R.expect('G1-stringtable-access-is-at', 5)          # decode_info, build_tag_list, decode_relation, dense tags, dense user
+    R.expect('G1-out_of_range-mapped', 2)
+    R.expect('G2-stringtable-entry-length', 1)
+    R.expect('G3-builder-string-length-checked', 9)     # 3 add_tag overloads x key/value, add_role, add_user, add_text
+    R.expect('G4-blob-sizes-bounded', 7)
+    R.expect('G5-o5m-section-end-checked', 2)           # decode_way, decode_relation
+    R.expect('G5-o5m-reference-table-bounds', 6)
+    R.expect('G5-o5m-bytes-available', 3)
+    R.expect('G5-o5m-cursor-deref-end-checked', 9)
+    R.expect('G6-member-type-range-checked', 4)         # PBF, o5m, XML, OPL
+    R.expect('G7-expat-callbacks-contained', 4)
+    R.expect('G7-expat-exception-stored-and-parser-stopped', 1)
+    R.expect('G7-expat-entity-declarations-rejected', 1)
+    R.expect('G7-expat-parse-error-rethrows-stored-first', 1)
+    R.expect('G8-throws-std-exception', 100)
+    R.expect('G9-utf8-length-test-before-continuation', 1)
+    R.expect('G9-utf8-case-reads-its-length', 1)
+    R.expect('NUL-tag-strings-have-no-interior-nul', 3)  # PBF x2, OPL
+    R.expect('TS-sibling-builder-reset-first', 6)
+    R.expect('TS-end-closes-builders', 15)
+    R.expect('TS-comment-obligation-closed', 1)
+    R.expect('TS-comment-closer-once', 1)
+    R.expect('A1-who-may-abort', 2)
+
+
+def _selftest(fb, R):
+    _SELFTEST[0] = True
+    try:
+        esc = Esc(fb)
+        g1_g2_stringtable(fb, R, esc)
+        g3_builder_lengths(fb, R)
+        g5_o5m(fb, R)
+        g6_member_types(fb, R)
+        g7_expat(fb, R, esc)
+        g8_throw_types(fb, R)
+        g9_utf8(fb, R)
+        a1_who_may_abort(fb, R)
+    finally:
+        _SELFTEST[0] = False
+
+
+SELFTESTS = [(r, 'c03_guards.cpp', _selftest) for r in (
+    'G1-stringtable-access-is-at', 'G1-out_of_range-mapped', 'G2-stringtable-entry-length', 'G3-builder-string-length-checked',
+    'G5-o5m-section-end-checked', 'G5-o5m-reference-table-bounds', 'G5-o5m-bytes-available', 'G5-o5m-cursor-deref-end-checked',
+    'G6-member-type-range-checked', 'G7-expat-callbacks-contained', 'G7-expat-exception-stored-and-parser-stopped',
+    'G7-expat-entity-declarations-rejected', 'G7-expat-parse-error-rethrows-stored-first', 'G8-throws-std-exception',
+    'G9-utf8-length-test-before-continuation', 'G9-utf8-case-reads-its-length', 'A1-who-may-abort')]
